@@ -33,6 +33,9 @@ def run(ctx, prop):
             if case["mode"] == "rewrite":
                 slim = {k: case.get(k) for k in ("id", "text", "order", "join", "cs", "ce", "cands")}
                 slim["out"] = bytes(case["out"]).decode("utf8", "replace")
+            elif case["mode"] == "tplx":
+                slim = {"id": case["id"], "form": case["form"], "template": "".join(case["raw"]), "out": "".join(case["out"]),
+                        "vals": {"".join(v["name"]): "".join(v["val"]) for v in case["vals"]}}
             elif case["mode"] == "tpl":
                 slim = {"id": case["id"], "lang": case["lang"], "pattern": case["pattern"], "template": "".join(case["raw"]),
                         "src": "".join(case["src"])[:1500], "site": case["site"], "bind": case["bind"], "out": "".join(case["out"])}
@@ -45,6 +48,11 @@ def run(ctx, prop):
     recs = vlib.read_ndjson(rec)
     if prop == "C07":
         nt = set()
+        tx = [x for x in recs if x["mode"] == "tplx"]
+        recs = [x for x in recs if x["mode"] != "tplx"]
+        ctx.cov["templates_with_transformed_variables"] = len(tx)
+        for x in tx:
+            nt.add(("tplx", x["form"], "".join(x["raw"]), "".join(x["out"])))
         for x in recs:
             multi = any("\n" in "".join(x["src"][b["lo"]:b["hi"]]) for b in x["bind"])
             if multi:
